@@ -580,6 +580,24 @@ func c02(c *Ctx) {
 		}
 		c.Check(good, "R6", "sdk/metric|(*pipeline).produce|callbacks precede compAgg", at(mx.M, fn.Pos()), "observable instruments are observed before they are collected",
 			"aggregations are computed before (or interleaved with) the callbacks that feed them: this cycle's observations are reported a cycle late or split")
+		// the scratch value is read from and written back to the same output slot: one index variable on …Metrics[·]
+		{
+			idx := map[types.Object]bool{}
+			inspectNoLit(fn.Body(), func(n ast.Node) bool {
+				ie, ok := n.(*ast.IndexExpr)
+				if !ok {
+					return true
+				}
+				if sel, ok := unparen(ie.X).(*ast.SelectorExpr); ok && sel.Sel.Name == "Metrics" {
+					if o := objOf(minfo, ie.Index); o != nil {
+						idx[o] = true
+					}
+				}
+				return true
+			})
+			c.Check(len(idx) == 1, "R6", "sdk/metric|(*pipeline).produce|one index variable addresses the output slot (read of the scratch Data and all writes)", at(mx.M, fn.Pos()), "same slot read and written",
+				"the aggregation's scratch memory is taken from another output slot than the one it is written to: with a re-used ResourceMetrics two instruments end up sharing one DataPoints array")
+		}
 		if len(comp) == 1 {
 			ok, why := totalFanout(g, comp[0])
 			c.Check(ok, "R6", "sdk/metric|(*pipeline).produce|compAgg called for every instrument", at(mx.M, comp[0].N.Pos()), "the n > 0 test only filters output", "an instrument's aggregation can be skipped (its delta state is never reset / values never reported): "+why)
